@@ -4,6 +4,7 @@ package main
 
 import (
 	"fmt"
+	"os"
 	"hash/crc32"
 	"sort"
 	"strings"
@@ -178,6 +179,11 @@ func (pc *PathCtx) ensureModel(in *Interp) {
 	res := pc.checkPath(in, nil, true)
 	if res != "sat" {
 		if res == "unsat" {
+			if dbgOn {
+				for i, l := range pc.lits {
+					fmt.Fprintf(os.Stderr, "lit %d kind %d done %v: %s\n", i, l.kind, l.done, l.t.String())
+				}
+			}
 			in.end("infeasible", "path condition unsatisfiable")
 		}
 		in.end("inconclusive", "solver %s on path condition (%s)", res, lastSolverError)
@@ -224,9 +230,15 @@ func (pc *PathCtx) assume(in *Interp, t *Term) {
 	if pc.pos < len(pc.prefix) && !pc.modelOK {
 		return // checked when the model is first needed
 	}
+	savedModel, savedOK := pc.model, pc.modelOK
 	pc.modelOK = false
 	r := pc.checkPath(in, nil, true)
 	if r == "unsat" {
+		// the assumption cannot hold on this path: drop it again so that the
+		// alternatives of the earlier decisions are still explored at path end
+		pc.lits = pc.lits[:len(pc.lits)-1]
+		pc.model, pc.modelOK = savedModel, savedOK
+		pc.evalMemo = map[*Term]uint64{}
 		in.end("assume", "")
 	}
 	if r != "sat" {
